@@ -161,6 +161,7 @@ class Program:
             # (1) functions that were merely renamed get their original names back
             try:
                 rn = inline.undo_renames({n: m.tree for n, m in self.modules.items()})
+                rn += inline.undo_attr_renames({n: m.tree for n, m in self.modules.items()})
                 if rn:
                     self.inlined.setdefault("<renamed back>", []).extend(rn)
             except Exception as e:
